@@ -78,3 +78,11 @@ Theorem C01_dispatch_default : forall a_dense m_dense n herm,
    else if herm then "cg"%string else "bicgstab"%string).
 Proof. by []. Qed.
 Print Assumptions C01_dispatch_default.
+
+(* ---- the code of xitorch/_utils/bcast.py as translated from /repo on this run (Gen/PyBcast.v): for two or more
+   shapes get_bcasted_dims IS the broadcast shape of Base/Shapes.v; with no shape it raises.  Statement:
+   Proofs/PyBcastProofs.v, translated_bcast_statement. ---- *)
+From XV Require Proofs.PyBcastProofs.
+Theorem C01_translated_bcast_is_model : PyBcastProofs.translated_bcast_statement.
+Proof. exact PyBcastProofs.translated_bcast. Qed.
+Print Assumptions C01_translated_bcast_is_model.
